@@ -51,6 +51,12 @@ def run_scen(job):
         return dict(status=status, brief=scen.brief(sc), steps=len(log["log"]) if log else 0)
 
 
+def run_seq(jobs):
+    """Several simulations one after the other in the same process (grids of different extent): nothing a run
+    leaves behind may reach the next one."""
+    return [run_scen(j) for j in jobs]
+
+
 def run_kernel(job):
     """Direct kernel calls at valid-region and clipped positions on a random window."""
     use_repo()
@@ -79,7 +85,8 @@ def run_kernel(job):
 
 def main_():
     job = json.loads(sys.stdin.read())
-    out = dict(scen=pmap(run_scen, job["scen"]), kernel=pmap(run_kernel, job["kernel"], warm=False))
+    out = dict(scen=pmap(run_scen, job["scen"]), kernel=pmap(run_kernel, job["kernel"], warm=False),
+               seq=pmap(run_seq, job.get("seq", []), chunksize=1))
     print("@@RESULT@@" + json.dumps(out))
 
 
